@@ -1,7 +1,8 @@
 import Driver.Core
 import RrModel.Spec.C06
-/- streams: recomp, recomphdr, codeclaw, kf.C06-a … kf.C06-d  (C06); kf.C06-a is the regression
-   stream of the repaired finding C06-a (no class label any more: a failure there is a violation) -/
+/- streams: recomp, recomphdr, codeclaw, kf.C06-a … kf.C06-d  (C06); kf.C06-a and kf.C06-d are the
+   regression streams of the repaired findings C06-a and C06-d (no class label any more: a failure
+   there is a violation) -/
 open Go Model Proto
 open Model.Recompress
 
@@ -79,7 +80,7 @@ def hHdr : Handler := fun impl => do
   let label :=
     if ¬ Spec.C06.inDomain toyExt x then (if r.status = 500 then "mislabelled:500" else "mislabelled:pass")
     else if !flag then "off"
-    else if !canTransform (x.originHeaders.get kCacheControl) then "no-transform"
+    else if !canTransform (cacheControlOf x.originHeaders) then "no-transform"
     else if rc.add = .none ∧ rc.remove = .none then "pass"
     else (if rc.remove = .gzip then "gunzip" else "") ++
          (if rc.add ≠ .none then "+" ++ showCType rc.add ++
